@@ -91,6 +91,11 @@ theorem openChunks_flatten (b : Buf) (off m : Nat) : (openChunks b off m).1.flat
     by_cases h : off > data.length
     · rw [if_pos h, List.drop_eq_nil_of_le (Nat.le_of_lt h)]; rfl
     · rw [if_neg h]; exact pieces_flatten _ _
+  | readerAt data suf =>
+    simp only [openChunks, content]
+    by_cases h : off > data.length
+    · rw [if_pos h, List.drop_eq_nil_of_le (Nat.le_of_lt h)]; rfl
+    · rw [if_neg h]; exact pieces_flatten _ _
   | error e => simp [openChunks, content]
   | chunks d s =>
     simp only [openChunks, content]
@@ -160,6 +165,7 @@ def readBytes (rs : List (Bytes × Status)) : Bytes := (rs.map (·.1)).flatten
 /-- The buffer holds the object `D` or a prefix of it up to its first failure: failing is its only defect. -/
 def Good (D : Bytes) : Buf → Prop
   | .bytes data => data = D
+  | .readerAt data _ => data = D
   | .error _ => True
   | .chunks d s => d.size = D.length ∧ (scan s).1.flatten <+: D
   | .reader d s => d.size = D.length ∧ (scan s).1.flatten <+: D
@@ -170,6 +176,7 @@ def GoodH (D : Bytes) (h : List Resp) : Prop := ∀ b, Resp.repl b ∈ h → Goo
 theorem Good.content_prefix {D : Bytes} {b : Buf} (h : Good D b) : content b <+: D := by
   cases b with
   | bytes data => simp only [Good] at h; subst h; exact List.prefix_refl _
+  | readerAt data suf => simp only [Good] at h; subst h; exact List.prefix_refl _
   | error e => exact List.nil_prefix
   | chunks d s => exact h.2
   | reader d s => exact h.2
@@ -184,6 +191,7 @@ theorem GoodH.head {D : Bytes} {b : Buf} {h : List Resp} (g : GoodH D (.repl b :
 /-- Every buffer carries the digest `d`; validated byte slices hold `D` (that is what makes them "validated"). -/
 def Sealed (d : Digest) (D : Bytes) : Buf → Prop
   | .bytes data => data = D
+  | .readerAt data _ => data = D
   | .error _ => True
   | .chunks d' _ => d' = d
   | .reader d' _ => d' = d
@@ -197,6 +205,14 @@ theorem SealedH.tail {d : Digest} {D : Bytes} {r : Resp} {h : List Resp} (g : Se
 theorem SealedH.head {d : Digest} {D : Bytes} {b : Buf} {h : List Resp} (g : SealedH d D (.repl b :: h)) : Sealed d D b :=
   g b List.mem_cons_self
 
+/-- The backing `ReaderAt` of a validated `ReaderAt` buffer ends with the object (needed for `ReadAt`
+only, which that buffer delegates to the `ReaderAt` without bounding it by the object's size). -/
+def Tight : Buf → Prop
+  | .readerAt _ suffix => suffix = []
+  | _ => True
+
+def TightH (h : List Resp) : Prop := ∀ b, Resp.repl b ∈ h → Tight b
+
 /-- Errors the buffer layer itself raises (as opposed to error values that come from a source, an
 error buffer or the handler). -/
 def Err.isIntegrity : Err → Prop
@@ -208,6 +224,7 @@ scripted source, or an integrity/offset/size-limit error raised while reading `b
 def Own : Buf → Err → Prop
   | .error e', e => e = e'
   | .bytes _, e => e.isIntegrity
+  | .readerAt _ _, e => e.isIntegrity
   | .chunks _ s, e => (scan s).2 = .err e ∨ e.isIntegrity
   | .reader _ s, e => (scan s).2 = .err e ∨ e.isIntegrity
   | .clone _ s, e => (scan s).2 = .err e ∨ e.isIntegrity
@@ -249,6 +266,11 @@ def decision : List Resp → Nat → Option Err
 theorem openChunks_own (b : Buf) (off m : Nat) (e : Err) (h : (openChunks b off m).2 = .err e) : Own b e := by
   cases b with
   | bytes data =>
+    simp only [openChunks] at h
+    by_cases hh : off > data.length
+    · rw [if_pos hh] at h; simp at h; subst h; simp [Own, Err.isIntegrity]
+    · rw [if_neg hh] at h; simp at h
+  | readerAt data suf =>
     simp only [openChunks] at h
     by_cases hh : off > data.length
     · rw [if_pos hh] at h; simp at h; subst h; simp [Own, Err.isIntegrity]
